@@ -24,6 +24,7 @@ S = "selfies/utils/smiles_utils.py"
 U = "selfies/utils/encoding_utils.py"
 C = "selfies/compatibility.py"
 K = "selfies/constants.py"
+K_MATCH = "selfies/utils/matching_utils.py"
 
 
 def op(name, expect, edits, rules=()):
@@ -92,6 +93,21 @@ OPS = {
         op("swap-decoder-marks", "fire", [(D, "                a=lidx, a_stereo=lstereo, a_pos=rings_made[lidx],\n                b=ridx, b_stereo=rstereo, b_pos=rings_made[ridx],",
                                            "                a=lidx, a_stereo=rstereo, a_pos=rings_made[lidx],\n                b=ridx, b_stereo=lstereo, b_pos=rings_made[ridx],")], ["S2"]),
         op("same-mark-dropped", "fire", [(E, "    if (lbond.order != 1) or all(b.stereo is None for b in (lbond, rbond)):", "    if (lbond.order != 1) or lbond.stereo == rbond.stereo:")], ["S1", "S2"]),
+    ],
+    "C05": [
+        op("missing-matching-not-checked", "fire", [(M, "        if matching is None:\n            return False\n", "")], ["K1"]),
+        op("success-without-matching", "fire", [(M, "        if matching is None:\n            return False\n", "        if matching is None:\n            return True\n")], ["K1"]),
+        op("encoder-ignores-kekulize-result", "fire", [(E, "    if not mol.kekulize():\n        err_msg = \"kekulization failed\\n\\tSMILES: {}\".format(smiles)\n        raise EncoderError(err_msg)\n", "    mol.kekulize()\n")], ["K1"]),
+        op("failed-kekulization-raises-valueerror", "fire", [(E, "        err_msg = \"kekulization failed\\n\\tSMILES: {}\".format(smiles)\n        raise EncoderError(err_msg)", "        err_msg = \"kekulization failed\\n\\tSMILES: {}\".format(smiles)\n        raise ValueError(err_msg)")], ["K1"]),
+        op("writer-guard-removed", "fire", [(S, "    assert mol.is_kekulized()\n", "")], ["K1"]),
+        op("kekulize-resets-hydrogens", "fire", [(M, "            self._atoms[node].is_aromatic = False\n", "            self._atoms[node].is_aromatic = False\n            self._atoms[node].h_count = None\n")], ["K2"]),
+        op("kekulize-drops-a-bond-entry", "fire", [(M, "        self._delocal_subgraph = dict()  # clear DS\n", "        self._delocal_subgraph = dict()  # clear DS\n        self._bond_dict.pop((0, 1), None)\n")], ["K2"]),
+        op("one-sided-flip", "fire", [(K_MATCH, "        matching[a] = b\n        matching[b] = a", "        matching[a] = b")], ["K3"]),
+        op("greedy-one-sided", "fire", [(K_MATCH, "        matching[node] = mate\n        matching[mate] = node", "        matching[node] = mate")], ["K3"]),
+        op("subgraph-not-emptied", "fire", [(M, "        self._delocal_subgraph = dict()  # clear DS\n", "")], ["K4"]),
+        op("flip-with-tuple-assignment", "silent", [(K_MATCH, "        matching[a] = b\n        matching[b] = a", "        matching[a], matching[b] = b, a")]),
+        op("subgraph-cleared-in-place", "silent", [(M, "        self._delocal_subgraph = dict()  # clear DS\n", "        self._delocal_subgraph.clear()\n")]),
+        op("failure-tested-with-if-else", "silent", [(E, "    if not mol.kekulize():\n        err_msg = \"kekulization failed\\n\\tSMILES: {}\".format(smiles)\n        raise EncoderError(err_msg)\n", "    if mol.kekulize():\n        pass\n    else:\n        err_msg = \"kekulization failed\\n\\tSMILES: {}\".format(smiles)\n        raise EncoderError(err_msg)\n")]),
     ],
     "C06": [
         op("ge-comparator", "fire", [(E, "        if bond_count > bond_cap:", "        if bond_count >= bond_cap:")], ["Q1"]),
